@@ -22,11 +22,13 @@ claim = REG.claim
 EXPLANATION = ("C16: each ':SymPy: supported' entry is run on Term scalars (numeric path in exact arithmetic) and on real SymPy "
                "symbols in an unshimmed interpreter; z3 decides entrywise equality of the two results for all values; structural "
                "0/1 entries must be exact on the symbolic side; an exception on one side only is a counterexample.")
+ASSUMPTIONS = ["degree forms: SymPy's constant 0.0174532925199433 (the double nearest pi/180) is identified with math.pi/180 as an exact rational (relative difference <= 1.2e-16, i.e. <= 1e-13 in any sine/cosine for |angle| <= 1e3)"]
 BOUNDS = "all-symbolic and mixed symbolic/numeric argument patterns, scalar and packed call forms, as listed in CALLS"
 TIMEOUT = {'quick': 10, 'thorough': 60}
 ROOT = os.path.dirname(os.path.dirname(os.path.abspath(__file__)))
 
 ANGLES = ('a', 'b', 'c')
+DEG_ANGLES = ('ad', 'bd', 'cd')      # degree-valued variables: h.deg(angle atom)
 REALS = ('x', 'y', 'z', 'u', 'v', 'w', 'd0', 'd1', 'd2', 'd3', 'd4', 'd5', 'q0', 'q1', 'q2', 'q3')
 
 # name -> python expression evaluated in both worlds (names: base, np, SO3, SE3, ..., angles a b c, reals x y z ...)
@@ -46,6 +48,14 @@ CALLS = {
     'vex': 'base.vex(base.skew([x, y, z]))',
     'skewa': 'base.skewa([d0, d1, d2, d3, d4, d5])', 'skewa3': 'base.skewa([x, y, z])',
     'vexa': 'base.vexa(base.skewa([d0, d1, d2, d3, d4, d5]))',
+    # degree forms (ad, bd, cd are angles in degrees; the numeric path converts them with getunit)
+    'rotx-deg': 'base.rotx(ad, "deg")', 'roty-deg': 'base.roty(ad, unit="deg")', 'rotz-deg': 'base.rotz(ad, "deg")',
+    'trotx-deg': 'base.trotx(ad, "deg")', 'trotz-deg-t': 'base.trotz(ad, unit="deg", t=[x, y, z])',
+    'eul2r-scalars-deg': 'base.eul2r(ad, bd, cd, unit="deg")', 'eul2r-packed-deg': 'base.eul2r([ad, bd, cd], unit="deg")',
+    'eul2r-mixed-scalars-deg': 'base.eul2r(ad, 20, cd, unit="deg")', 'eul2tr-scalars-deg': 'base.eul2tr(ad, bd, cd, unit="deg")',
+    'SO3.Rx-deg': 'SO3.Rx(ad, "deg").A', 'SE3.Rz-deg': 'SE3.Rz(ad, "deg").A', 'SE3.Eul-deg': 'SE3.Eul([ad, bd, cd], unit="deg").A',
+    'SO3.RPY-deg': 'SO3.RPY([ad, bd, cd], unit="deg").A', 'SE3.RPY-deg-xyz': 'SE3.RPY([ad, bd, cd], unit="deg", order="xyz").A',
+    'getunit-deg-scalar': 'np.array([base.getunit(ad, "deg")])', 'getunit-deg-list': 'np.array(base.getunit([ad, 30], "deg"))',
     'det': 'base.det(np.array([[x, y], [u, v]]))',
     'det3': 'base.det(np.array([[x, y, z], [u, v, w], [d0, d1, d2]]))',
     'det3-mixed': 'base.det(np.array([[x, 2.0, z], [0.5, v, w], [d0, d1, -3.0]]))',
@@ -111,6 +121,7 @@ import numpy as np, sympy
 from spatialmath import base, SO2, SE2, SO3, SE3, Quaternion, UnitQuaternion, Twist3
 a, b, c = sympy.symbols('a b c', real=True)
 x, y, z, u, v, w, d0, d1, d2, d3, d4, d5, q0, q1, q2, q3 = sympy.symbols('x y z u v w d0 d1 d2 d3 d4 d5 q0 q1 q2 q3', real=True)
+ad, bd, cd = sympy.symbols('ad bd cd', real=True)
 try:
     r = eval(sys.argv[1])
     arr = np.asarray(r, dtype=object)
@@ -146,7 +157,15 @@ def to_value(h, expr, env):
         from fractions import Fraction
         return Fraction(int(expr.p), int(expr.q)) if h.sym else float(expr)
     if isinstance(expr, sympy.Float):
-        return float(expr)
+        f = float(expr)
+        if h.sym and abs(f - math.pi / 180) < 1e-17:
+            # the double nearest to pi/180 that SymPy prints for the degree conversion; the numeric path computes
+            # x * math.pi / 180 (two operations).  Identified with the exact quotient (relative difference 1e-16, stated
+            # in ASSUMPTIONS) so that the symbolic angle is the same atom as on the numeric path
+            from fractions import Fraction
+            from symreal.core import PI
+            return PI / 180
+        return f
     if isinstance(expr, sympy.Add):
         t = 0
         for a in expr.args:
@@ -183,6 +202,7 @@ def compare(h, name, code):
     import sympy
     env = {n: h.angle(n) for n in ANGLES if re.search(rf'\b{n}\b', code)}
     env.update({n: h.real(n, -5, 5) for n in REALS if re.search(rf'\b{n}\b', code)})
+    env.update({n: h.deg(h.angle(n + '_rad')) for n in DEG_ANGLES if re.search(rf'\b{n}\b', code)})
     ns = dict(base=base, np=np, SO2=SO2, SE2=SE2, SO3=SO3, SE3=SE3, Quaternion=Quaternion, UnitQuaternion=UnitQuaternion, Twist3=Twist3)
     ns.update(env)
     num_exc = None
